@@ -82,7 +82,7 @@ def main():
         if mm:
             cur = mm.group(1)
             fired[cur] = {"rc": int(mm.group(2)), "rules": []}
-        mm = re.match(r"\s+(C\d+\.[A-Z0-9]+):", line)
+        mm = re.match(r"\s+(C\d+\.[^:\s]+):", line)
         if mm and cur:
             if mm.group(1) not in fired[cur]["rules"]:
                 fired[cur]["rules"].append(mm.group(1))
